@@ -73,14 +73,15 @@ func (c *CriteriaMixing) Apply(
 	}
 	parsedProps := parseProps(props)
 	generator := c.generatorSource(parsedProps.RandomSeed)
-	c2m := selectCriteriaToMix(original, generator)
-	allAlternatives := original.AllAlternatives()
+	c2m := selectCriteriaToMix(current, generator)
+	allAlternatives := current.AllAlternatives()
 	referenceCriterionProvider := c.referenceCriteriaManager.ForParams(props)
 	referenceCriterion := referenceCriterion(original, listener, referenceCriterionProvider)
-	targetValRange := model.ValuesRangeWithGroundZero(&allAlternatives, referenceCriterion)
+	originalAlternatives := original.AllAlternatives()
+	targetValRange := model.ValuesRangeWithGroundZero(&originalAlternatives, referenceCriterion)
 	mixResult := c2m.mix(&allAlternatives, targetValRange, parsedProps)
 	newCriterion := c2m.criterion(targetValRange)
-	criterionParams := (*listener).OnCriterionAdded(&newCriterion, referenceCriterion, current.MethodParameters, generator)
+	criterionParams := (*listener).OnCriterionAdded(&newCriterion, referenceCriterion, original.MethodParameters, generator)
 	newMethodParams := (*listener).Merge(current.MethodParameters, criterionParams)
 	newAlternatives := updateAlternatives(allAlternatives, newCriterion, mixResult)
 	newParams := updateDMParams(current, newAlternatives, newCriterion, newMethodParams)
